@@ -351,8 +351,11 @@ def correspondence(ctx: Ctx):
     for case, impl, infos, err in metas:
         if impl is None:
             ctx.obligation("real predict() accepts the generated model", False, err)
-            ctx.violation("predict() raised on a well-formed model", {"case": case, "error": err},
-                          {"raises": True, "backend": case["backend"], **G.spec_features(case["spec"])})
+            n_raised = getattr(ctx, "_c02_raised", 0)
+            ctx._c02_raised = n_raised + 1
+            if n_raised < 2:
+                ctx.violation("predict() raised on a well-formed model", {"case": case, "error": err},
+                              {"raises": True, "backend": case["backend"], **G.spec_features(case["spec"])})
             continue
         spec = case["spec"]
         ctx.count_case(json.dumps(case, sort_keys=True), case_nontrivial(case, impl),
